@@ -362,4 +362,59 @@ theorem sharesOnPublicsN_cast (c : Cfg) (st : St) (h : SharesOnPublicsN c st) :
   rw [h2]; unfold pubEvalI
   rw [pubEvalAt_eq_evalAt, evalAt_cast, xEval_cast]
 
+/-! ### where results come from -/
+
+theorem respFin_result (c : Cfg) (p : St × RespOut) (r : Result) (h : (respFin c p).2 = .result (some r)) :
+    p.2 = .result (some r) := by
+  unfold respFin at h
+  split at h
+  · exact h
+  · exact h
+  · split at h
+    · cases h
+    · exact h
+
+theorem respCore_result (c : Cfg) (st : St) (l : List ResponseBundle) (r : Result)
+    (h : (respCore c st l).2 = .result (some r)) :
+    ∃ X : St, X.validShares = st.validShares ∧ X.allPublics = st.allPublics ∧ (computeResult c X).2 = some r := by
+  have hp := respAfterLoop_priv c st l
+  unfold respCore at h
+  split at h
+  · simp only [RespOut.result.injEq] at h
+    exact ⟨st, rfl, rfl, h⟩
+  · simp only at h
+    split at h
+    · split at h
+      · simp only [RespOut.result.injEq] at h
+        exact ⟨_, hp.1, hp.2, h⟩
+      · cases h
+    · split at h
+      · cases h
+      · split at h <;> cases h
+
+/-- A result returned by `ProcessResponses` is `computeResult` of a state with the caller's private part. -/
+theorem processResponses_result (c : Cfg) (st : St) (l : List ResponseBundle) (r : Result)
+    (h : (processResponses c st l).2 = .result (some r)) :
+    ∃ X : St, X.validShares = st.validShares ∧ X.allPublics = st.allPublics ∧ (computeResult c X).2 = some r := by
+  unfold processResponses at h
+  split_ifs at h <;> first | (cases h; done) | exact respCore_result c st l r (respFin_result c _ r h)
+
+theorem processJustifications_result (c : Cfg) (st : St) (l : List JustBundle) (r : Result)
+    (h : (processJustifications c st l).2 = .result (some r)) :
+    (computeResult c (justLoop c st l)).2 = some r := by
+  unfold processJustifications at h
+  split_ifs at h
+  · simpa using h
+
+theorem computeResult_fresh (c : Cfg) (hres : c.isResharing = false) (X : St) :
+    (computeResult c X).1.validShares = X.validShares ∧ (computeResult c X).1.allPublics = X.allPublics ∧
+      (computeResult c X).2 = computeDKGResult c (computeResult c X).1 := by
+  refine ⟨rfl, rfl, ?_⟩
+  unfold computeResult
+  simp only [hres, Bool.false_eq_true, if_false]
+
+theorem sharesOnPublicsN_of_priv (c : Cfg) {X Y : St} (h1 : X.validShares = Y.validShares)
+    (h2 : X.allPublics = Y.allPublics) (h : SharesOnPublicsN c Y) : SharesOnPublicsN c X := by
+  intro d v hv; rw [h1] at hv; rw [h2]; exact h d v hv
+
 end Kyber.Dkg
